@@ -462,6 +462,21 @@ def rewrite_swap(body, log):
     return pat.sub(rep, body)
 
 
+def rewrite_split_at_mut(body, log):
+    """R8: `self.items.split_at_mut(X)` / `buf.items.split_at_mut(X)` (array auto-unsized to a slice; vstd does
+    not relate the final array to the final halves) -> `array_split_at_mut(&mut self.items, X)`"""
+    pat = re.compile(r'\b(self|buf)\.items\.split_at_mut\(')
+    while True:
+        m = pat.search(body)
+        if not m:
+            return body
+        close = match_close(mask(body), m.end() - 1, '(', ')')
+        arg = body[m.end():close]
+        new = 'array_split_at_mut(&mut %s.items, %s)' % (m.group(1), arg.strip())
+        log.append('R8: `%s` -> `%s`' % (norm_ws(body[m.start():close + 1]), new))
+        body = body[:m.start()] + new + body[close + 1:]
+
+
 def rewrite_assert_eq(body, log):
     """R4: debug_assert_eq!(a, b[, msg..]) -> debug_assert!(a == b)"""
     while True:
